@@ -70,6 +70,34 @@ def search(families=('all',)):
     return out
 
 
+def timing():
+    """C20 bounded stand-in: time ratios 64 KiB / 4 KiB of adversarial families on the real crate"""
+    import re
+    d, exe, err = build()
+    out = dict(families=[], error=None)
+    try:
+        if exe is None:
+            out['error'] = 'witness build failed:\n' + err
+            return out
+        p = subprocess.run([exe, 'timing'], capture_output=True, text=True, timeout=600)
+        flagged = set()
+        for l in p.stdout.split('\n'):
+            if l.startswith('{'):
+                try:
+                    flagged.add(json.loads(l)['entry'])
+                except ValueError:
+                    pass
+        for m in re.finditer(r'timing family=(\S+) ratio=([0-9.]+) t64k=([0-9.]+)s', p.stderr):
+            out['families'].append(dict(family=m.group(1), ratio=float(m.group(2)), t64k_s=float(m.group(3)), status='fail' if m.group(1) in flagged else 'pass'))
+        if p.returncode not in (0, 1):
+            out['error'] = 'timing run ended abnormally (exit %d): %s' % (p.returncode, p.stderr[-600:])
+    except subprocess.TimeoutExpired:
+        out['error'] = 'timing run timed out (itself a sign of super-linear work)'
+    finally:
+        shutil.rmtree(d, ignore_errors=True)
+    return out
+
+
 def replay(family, cfg, cap, hexs):
     d, exe, err = build()
     try:
